@@ -10,18 +10,19 @@ from concurrent.futures import ThreadPoolExecutor
 import vlib
 from vlib import log
 
-MAIN = {"C27": ["auth"], "C28": ["admit", "rate", "ratefetch"], "C29": ["frame"]}
+MAIN = {"C27": ["auth"], "C28": ["admit", "rate", "ratefetch", "ratebad"], "C29": ["frame"]}
 DEV = {"C27": [("dev_stop", "C27_NoEffect"), ("dev_stop_refused", "C27_Refused"), ("dev_fetchout", "C27_NoEffect"),
                ("dev_fetchlate", "C27_NoEffect"), ("dev_fetchlate_refused", "C27_Refused"),
                ("reach_stoprefused", "Reach_UnauthStopRefused"), ("reach_fetchunknown", "Reach_UnauthFetchUnknownChunk"),
                ("reach_fetchout", "Reach_AuthorisedFetchOut")],
-       "C28": [("dev_ratekey", "C28_Rate"), ("dev_ratekey_fetch", "C28_Rate"), ("reach_ratelimited", "Reach_RateLimited"),
+       "C28": [("dev_ratekey", "C28_Rate"), ("dev_ratekey_fetch", "C28_Rate"), ("dev_refund", "C28_Rate"), ("reach_ratelimited", "Reach_RateLimited"),
                ("reach_sliding", "Reach_SlidingWindow"), ("reach_overcap", "Reach_OverCapRefused"), ("reach_pow", "Reach_PowRefused")],
        "C29": [("dev_rawnl", "C29_RoundTrip"), ("dev_rawnl_list", "C29_ListComplete"), ("reach_list3", "Reach_ListThree"),
                ("reach_multiline", "Reach_MultiLineValue")]}
 NOTE = {"auth": "token configured: 6 token variants x 3 header positions x {STORE, FETCH stream, FETCH OUT, STOP, LIST, PING} x 2 chunks; effects stored/registered/files/running",
         "admit": "STORE admission: declared length {under, at, over cap} x TTL {absent, below, min, mid, max, above, garbage} x PoW {valid, invalid, missing}",
         "rate": "no token: STORE rate buckets, window 3, limit 2, TOKEN header in {none, a, b}, clock 0..5",
+        "ratebad": "no token, store PoW on: STORE rate bucket of one address, window 3, limit 2, requests refused on size / TTL / PoW interleaved with admissible ones",
         "ratefetch": "no token: streamed-FETCH rate buckets, window 3, limit 2, TOKEN header in {none, a, b}",
         "frame": "Serialize/Parse of LIST (0-3 chunks), two free values from the 9-value table in every field order, warnings lists, payloads; framing lemma Parse(Serialize(x)) = x as ASSUME"}
 VALUES_N = 9      # ValueTable of Control.tla = the first 9 entries of the harness's kValues
@@ -91,7 +92,8 @@ def rate_scripts(hists, rng, fetch):
     out = []
     burst = 6 if fetch else 3
     for h in hists:
-        lines = ["reset token=0 pow=0 cap=64"]
+        bad = any(a["op"] == "req" and (a.get("len") == "over" or a.get("ttl") != "mid" or a.get("pow") == "invalid") for a in h)
+        lines = ["reset token=0 pow=8 cap=64 minttl=30 maxttl=3600" if bad else "reset token=0 pow=0 cap=64"]
         n = 0
         for a in h:
             if a["op"] == "adv":
@@ -104,8 +106,15 @@ def rate_scripts(hists, rng, fetch):
                     hdr = "" if a["hdr"] == "none" else " tok=hdr-%s" % a["hdr"]
                     if fetch:
                         lines.append("req cmd=FETCH-STREAM c=%d src=%d%s sv=%d" % (a["ch"], a["addr"], hdr, n))
-                    else:
+                    elif not bad:
                         lines.append("req cmd=STORE c=%d src=%d%s ttl=600" % (10 + n % 7, a["addr"], hdr))
+                    else:
+                        # requests refused on their headers / PoW cost the client nothing; they must not buy admissible ones a slot
+                        ttl = {"mid": "600", "above": rng.choice(["3601", "86400"]), "garbage": rng.choice(["abc", "-5"])}[a["ttl"]]
+                        ln = "req cmd=STORE c=%d src=%d ttl=%s pow=%s" % (10 + n % 7, a["addr"], ttl, "valid" if a["pow"] == "valid" else rng.choice(["invalid", "wronghash"]))
+                        if a["len"] == "over":
+                            ln += " sz=%d body=withhold" % rng.choice([65, 200])
+                        lines.append(ln)
         out.append(lines)
     return out
 
@@ -233,8 +242,9 @@ def random_rate(rng, n):
                 if fetch and rng.random() < 0.8:
                     lines.append("req cmd=FETCH-STREAM c=1 src=%d%s" % (src, t))
                 else:
-                    lines.append("req cmd=STORE c=%d src=%d%s ttl=%d path=%d perm=%d lc=%d" % (rng.randrange(1, 40), src, t, rng.choice([600, 601, 3000, 3599]),
-                                                                                            rng.randrange(6), rng.randrange(9), rng.random() < 0.1))
+                    lines.append("req cmd=STORE c=%d src=%d%s ttl=%s path=%d perm=%d lc=%d%s" % (rng.randrange(1, 40), src, t,
+                                 rng.choice([600, 601, 3000, 3599] * 3 + [0, 999999, "abc"]), rng.randrange(6), rng.randrange(9), rng.random() < 0.1,
+                                 " sz=200 body=withhold" if rng.random() < 0.08 else ""))
                 marks.append(now)
             # land exactly on / next to the end of a 30 s window with probability 1/2
             if marks and rng.random() < 0.5:
@@ -394,9 +404,12 @@ def run(chk):
         ad = admit_scripts(hists["admit"], rng)
         rs = rate_scripts(hists["rate"], rng, False)
         rf = rate_scripts(hists["ratefetch"], rng, True)
+        rb = [x for x in rate_scripts(hists["ratebad"], rng, False) if x[0].startswith("reset token=0 pow=8")]
+        rb = sorted(rb, key=len, reverse=True)[:400 * k]
         log("[gen] TLC state-cover sequences: %d admit, %d rate(store), %d rate(fetch)" % (len(ad), len(rs), len(rf)))
         run_and_validate(chk, _sample(rng, ad, 600 * k), "tlc-state-cover-admit")
         run_and_validate(chk, rs + rf, "tlc-state-cover-rate")
+        run_and_validate(chk, rb, "tlc-state-cover-rate-with-refused-requests")
         run_and_validate(chk, random_admit(rng, 200 * k), "random-admit")
         run_and_validate(chk, random_rate(rng, 120 * k), "random-rate")
     elif chk.pid == "C29":
